@@ -12,11 +12,11 @@ namespace Foundation.Paging
 
 abbrev Sorted (l : List Key) : Prop := List.Pairwise (· < ·) l
 
-/-- U+10FFFF, Go's `utf8.MaxRune` -/
-def maxRune : Char := Char.ofNat 0x10FFFF
-
 def fromPrefix : String := "/transfer/from/"
-def endKey : String := fromPrefix ++ String.singleton maxRune
+/-- the prefix with its last byte incremented ('/' + 1 = '0'): the least key above every key that
+    starts with the prefix (after fix 3567894; before it the end was prefix+U+10FFFF, which left out
+    ids beginning with U+10FFFF) -/
+def endKey : String := "/transfer/from0"
 
 /-- the keys of the range `[fromPrefix, endKey)`, in ledger order -/
 def rangeKeys (keys : List Key) : List Key :=
